@@ -47,7 +47,8 @@ def lean_sources():
 
 def lean_recheck(prop):
     """thorough tier: independent re-check of the compiled Props module with leanchecker"""
-    rc, out, err = sh(["lake", "env", "leanchecker", "TeaalVerif.Props." + prop], cwd=LEAN, timeout=1800)
+    mods = ["TeaalVerif.Props." + os.path.basename(f)[:-5] for f in sorted(glob.glob(os.path.join(LEAN, "TeaalVerif", "Props", prop + "*.lean")))]
+    rc, out, err = sh(["lake", "env", "leanchecker"] + mods, cwd=LEAN, timeout=1800)
     return rc == 0, (out + err)[-400:]
 
 
@@ -60,6 +61,7 @@ def lean_build_and_audit(prop):
         problems.append("lake build failed: " + (out + err)[-1500:])
         return dict(ok=False, obligations=1, discharged=0, theorems=[], problems=problems, build_failed=True)
     h = hashlib.sha256()
+    h.update(b"audit-v2")
     for f in lean_sources():
         src = open(f).read()
         h.update(f.encode()); h.update(src.encode())
@@ -95,13 +97,21 @@ def lean_build_and_audit(prop):
 
 
 def prop_theorems():
-    """Names of all theorems declared in Props/Cxx.lean files (namespace Cxx)."""
+    """Names of all theorems declared in Props/C*.lean files, qualified by the namespace they are declared in."""
     names = []
     for f in sorted(glob.glob(os.path.join(LEAN, "TeaalVerif", "Props", "C*.lean"))):
-        ns = os.path.basename(f)[:-5]
         src = strip_comments(open(f).read())
-        for m in re.finditer(r"^\s*(?:private\s+|protected\s+)?theorem\s+([A-Za-z0-9_.']+)", src, re.M):
-            names.append(ns + "." + m.group(1))
+        ns = []
+        for line in src.split("\n"):
+            m = re.match(r"^namespace\s+([A-Za-z0-9_.]+)", line)
+            if m:
+                ns.append(m.group(1)); continue
+            m = re.match(r"^end\s+([A-Za-z0-9_.]+)", line)
+            if m and ns and ns[-1] == m.group(1):
+                ns.pop(); continue
+            m = re.match(r"^\s*(?:private\s+|protected\s+)?theorem\s+([A-Za-z0-9_.']+)", line)
+            if m:
+                names.append(".".join(ns + [m.group(1)]))
     return names
 
 
